@@ -246,7 +246,9 @@ class SymFS:
             if isinstance(hit, core.SymBool):
                 hit = core.cur().decide(hit.t)
             if hit:
+                occ = sum(1 for o, q in self.audit[:-1] if o == op and q == ap)
                 self.fault_fired = (k, op, ap)
+                self.fault_site = {'k': k, 'op': op, 'path': ap, 'occ': occ}
                 raise OSError(5, 'Input/output error (injected fault #%d at %s)' % (k, op), ap)
 
     # -- directory operations (used by the os facade)
